@@ -291,6 +291,7 @@ def run(tier, seed):
         fp = os.path.join(od, f)
         if os.path.isfile(fp):
             os.remove(fp)
+    shutil.rmtree(vlib.keepdir(PROP), ignore_errors=True)      # replay artefacts of earlier runs
     rng = random.Random(seed)
     t0 = time.time()
     exes, fmt_meta = build_all()
